@@ -36,6 +36,19 @@
 (*   Swept       : at quiescence, if the last sweep ran after the deadline *)
 (*                 the entry is gone (provided no read shortened it)       *)
 (*                                                                         *)
+(* A writer (Set / SetIfAbsent of the key) may take part as well: it        *)
+(* decides inside its table computation whether the entry it meets is live *)
+(* and replaces it; after the computation it publishes its event (which a  *)
+(* later maintenance run applies: the replaced node leaves the wheel, the  *)
+(* new one enters it).  Switch ReRead: TRUE = the code as found - after    *)
+(* the computation the writer evaluates the replaced node's deadline       *)
+(* again, and a reader's store can land in between:                        *)
+(*   F20: SetIfAbsent takes its no-op branch after it has stored a node -  *)
+(*        no event, Tracked is violated for the new node                   *)
+(*   F22: the event carries Replacement although the atomic handler was    *)
+(*        told Expiration - SameCause is violated                          *)
+(* ReRead = FALSE: decided once, inside the computation (the repair).      *)
+(*                                                                         *)
 (* Switch Resurrect: FALSE = the code as found (evictNode derives the      *)
 (* cause from a fresh read of the deadline and removes the node whatever   *)
 (* it reads): Truthful is violated (F19).  TRUE = the repair: the wheel's  *)
@@ -51,7 +64,10 @@ CONSTANTS Readers,     \* reader process ids (integers > 0)
           MaxClock,    \* the clock runs 0 .. MaxClock
           NSweeps,     \* maintenance runs
           Sized,       \* TRUE: the cache also has a size bound (the eviction policy may pick the entry as victim)
-          Resurrect    \* FALSE: code as found (F19); TRUE: repaired
+          Resurrect,   \* FALSE: code as found (F19); TRUE: repaired
+          Writers,     \* writer process ids (integers > 100), possibly empty
+          WKind,       \* "set" | "setifabsent"
+          ReRead       \* TRUE: code as found (F20, F22); FALSE: repaired
 
 Sweeper == 0
 Ticker == -1
@@ -66,7 +82,11 @@ variables clock = 0,
           events = <<>>,        \* removals: [cause, exp (deadline at the removal instant), at (the sweep's clock), path]
           hits = 0,
           lastSweep = 0,
-          shortened = FALSE;    \* history: some read stored an earlier deadline than the one it replaced (two clock samples used in the other order)
+          shortened = FALSE,
+          \* the node a writer stores (at most one writer writes: the second finds a live entry or replaces the first one's - not modelled)
+          mapped2 = FALSE, inWheel2 = FALSE,
+          atomicCause = "none", asyncCause = "none",
+          evPublished = FALSE, evApplied = FALSE;    \* history: some read stored an earlier deadline than the one it replaced (two clock samples used in the other order)
 
 fair process Reader \in Readers
 variables n = 1, now = 0, cur = 0;
@@ -87,6 +107,29 @@ begin
      end while;
 end process;
 
+fair process Writer \in Writers
+variables wn = 0, pres = FALSE, pres2 = FALSE, wrote = FALSE;
+begin
+ w_now:   wn := clock;                                   \* set(): c.clock.NowNano()
+ w_comp:  \* the key's table computation (bucket lock): set() decides and atomicSet replaces; the atomic handler is told the cause
+          if mapped /\ ~mapped2 then
+             pres := exp > wn;
+             if ~(WKind = "setifabsent" /\ pres) then
+                mapped := FALSE; mapped2 := TRUE; wrote := TRUE;
+                atomicCause := IF pres THEN "Replacement" ELSE "Expiration";
+             end if;
+          end if;
+ w_after: \* after the computation (verifhook "set.afterCompute"): afterWrite publishes the event, or afterRead for a no-op
+          pres2 := IF ReRead THEN (exp > wn) ELSE pres;
+          if wrote then
+             if WKind = "setifabsent" then
+                if ~pres2 then evPublished := TRUE; asyncCause := "Expiration"; end if;   \* (else: the no-op branch, nothing published)
+             else
+                evPublished := TRUE; asyncCause := IF pres2 THEN "Replacement" ELSE "Expiration";
+             end if;
+          end if;
+end process;
+
 fair process Tick = Ticker
 begin
  T0: while clock < MaxClock do
@@ -98,6 +141,9 @@ fair process Sweep = Sweeper
 variables k = 1, T = 0, path = "none", c1 = "none", revived = FALSE, removed = FALSE;
 begin
  S0: while k <= NSweeps do
+ s_drain: if evPublished /\ ~evApplied then             \* drainWriteBuffer: the update event - the replaced node leaves the wheel, the new one enters
+             inWheel := FALSE; inPolicy := FALSE; dead := TRUE; inWheel2 := TRUE; evApplied := TRUE;
+          end if;
  s_now:   T := clock; path := "none"; revived := FALSE; removed := FALSE;   \* expireNodes: c.clock.NowNano()
  s_wheel: lastSweep := T;
           if inWheel /\ exp < T then                    \* deleteExpiredFromBucket: unlink, uint64(n.ExpiresAt()) < v.time
@@ -132,16 +178,28 @@ begin
  s_end:   k := k + 1;
      end while;
 end process;
+
+\* "once the cache is quiescent and maintenance has run": a last run after everybody else has finished
+fair process Final = -2
+begin
+ f_wait:  await \A p \in (Readers \cup Writers \cup {Sweeper, Ticker}) : pc[p] = "Done";
+          if evPublished /\ ~evApplied then
+             inWheel := FALSE; inPolicy := FALSE; dead := TRUE; inWheel2 := TRUE; evApplied := TRUE;
+          end if;
+end process;
 end algorithm; *)
 \* BEGIN TRANSLATION
 VARIABLES pc, clock, exp, mapped, dead, inWheel, inPolicy, events, hits, 
-          lastSweep, shortened, n, now, cur, k, T, path, c1, revived, removed
+          lastSweep, shortened, mapped2, inWheel2, atomicCause, asyncCause, 
+          evPublished, evApplied, n, now, cur, wn, pres, pres2, wrote, k, T, 
+          path, c1, revived, removed
 
 vars == << pc, clock, exp, mapped, dead, inWheel, inPolicy, events, hits, 
-           lastSweep, shortened, n, now, cur, k, T, path, c1, revived, 
-           removed >>
+           lastSweep, shortened, mapped2, inWheel2, atomicCause, asyncCause, 
+           evPublished, evApplied, n, now, cur, wn, pres, pres2, wrote, k, T, 
+           path, c1, revived, removed >>
 
-ProcSet == (Readers) \cup {Ticker} \cup {Sweeper}
+ProcSet == (Readers) \cup (Writers) \cup {Ticker} \cup {Sweeper} \cup {-2}
 
 Init == (* Global variables *)
         /\ clock = 0
@@ -154,10 +212,21 @@ Init == (* Global variables *)
         /\ hits = 0
         /\ lastSweep = 0
         /\ shortened = FALSE
+        /\ mapped2 = FALSE
+        /\ inWheel2 = FALSE
+        /\ atomicCause = "none"
+        /\ asyncCause = "none"
+        /\ evPublished = FALSE
+        /\ evApplied = FALSE
         (* Process Reader *)
         /\ n = [self \in Readers |-> 1]
         /\ now = [self \in Readers |-> 0]
         /\ cur = [self \in Readers |-> 0]
+        (* Process Writer *)
+        /\ wn = [self \in Writers |-> 0]
+        /\ pres = [self \in Writers |-> FALSE]
+        /\ pres2 = [self \in Writers |-> FALSE]
+        /\ wrote = [self \in Writers |-> FALSE]
         (* Process Sweep *)
         /\ k = 1
         /\ T = 0
@@ -166,23 +235,29 @@ Init == (* Global variables *)
         /\ revived = FALSE
         /\ removed = FALSE
         /\ pc = [self \in ProcSet |-> CASE self \in Readers -> "R0"
+                                        [] self \in Writers -> "w_now"
                                         [] self = Ticker -> "T0"
-                                        [] self = Sweeper -> "S0"]
+                                        [] self = Sweeper -> "S0"
+                                        [] self = -2 -> "f_wait"]
 
 R0(self) == /\ pc[self] = "R0"
             /\ IF n[self] <= NReads
                   THEN /\ pc' = [pc EXCEPT ![self] = "r_now"]
                   ELSE /\ pc' = [pc EXCEPT ![self] = "Done"]
             /\ UNCHANGED << clock, exp, mapped, dead, inWheel, inPolicy, 
-                            events, hits, lastSweep, shortened, n, now, cur, k, 
+                            events, hits, lastSweep, shortened, mapped2, 
+                            inWheel2, atomicCause, asyncCause, evPublished, 
+                            evApplied, n, now, cur, wn, pres, pres2, wrote, k, 
                             T, path, c1, revived, removed >>
 
 r_now(self) == /\ pc[self] = "r_now"
                /\ now' = [now EXCEPT ![self] = clock]
                /\ pc' = [pc EXCEPT ![self] = "r_get"]
                /\ UNCHANGED << clock, exp, mapped, dead, inWheel, inPolicy, 
-                               events, hits, lastSweep, shortened, n, cur, k, 
-                               T, path, c1, revived, removed >>
+                               events, hits, lastSweep, shortened, mapped2, 
+                               inWheel2, atomicCause, asyncCause, evPublished, 
+                               evApplied, n, cur, wn, pres, pres2, wrote, k, T, 
+                               path, c1, revived, removed >>
 
 r_get(self) == /\ pc[self] = "r_get"
                /\ IF ~mapped \/ exp <= now[self]
@@ -193,14 +268,18 @@ r_get(self) == /\ pc[self] = "r_get"
                           /\ pc' = [pc EXCEPT ![self] = "r_calc"]
                           /\ n' = n
                /\ UNCHANGED << clock, exp, mapped, dead, inWheel, inPolicy, 
-                               events, lastSweep, shortened, now, cur, k, T, 
-                               path, c1, revived, removed >>
+                               events, lastSweep, shortened, mapped2, inWheel2, 
+                               atomicCause, asyncCause, evPublished, evApplied, 
+                               now, cur, wn, pres, pres2, wrote, k, T, path, 
+                               c1, revived, removed >>
 
 r_calc(self) == /\ pc[self] = "r_calc"
                 /\ cur' = [cur EXCEPT ![self] = exp]
                 /\ pc' = [pc EXCEPT ![self] = "r_cas"]
                 /\ UNCHANGED << clock, exp, mapped, dead, inWheel, inPolicy, 
-                                events, hits, lastSweep, shortened, n, now, k, 
+                                events, hits, lastSweep, shortened, mapped2, 
+                                inWheel2, atomicCause, asyncCause, evPublished, 
+                                evApplied, n, now, wn, pres, pres2, wrote, k, 
                                 T, path, c1, revived, removed >>
 
 r_cas(self) == /\ pc[self] = "r_cas"
@@ -212,11 +291,66 @@ r_cas(self) == /\ pc[self] = "r_cas"
                /\ n' = [n EXCEPT ![self] = n[self] + 1]
                /\ pc' = [pc EXCEPT ![self] = "R0"]
                /\ UNCHANGED << clock, mapped, dead, inWheel, inPolicy, events, 
-                               hits, lastSweep, now, cur, k, T, path, c1, 
-                               revived, removed >>
+                               hits, lastSweep, mapped2, inWheel2, atomicCause, 
+                               asyncCause, evPublished, evApplied, now, cur, 
+                               wn, pres, pres2, wrote, k, T, path, c1, revived, 
+                               removed >>
 
 Reader(self) == R0(self) \/ r_now(self) \/ r_get(self) \/ r_calc(self)
                    \/ r_cas(self)
+
+w_now(self) == /\ pc[self] = "w_now"
+               /\ wn' = [wn EXCEPT ![self] = clock]
+               /\ pc' = [pc EXCEPT ![self] = "w_comp"]
+               /\ UNCHANGED << clock, exp, mapped, dead, inWheel, inPolicy, 
+                               events, hits, lastSweep, shortened, mapped2, 
+                               inWheel2, atomicCause, asyncCause, evPublished, 
+                               evApplied, n, now, cur, pres, pres2, wrote, k, 
+                               T, path, c1, revived, removed >>
+
+w_comp(self) == /\ pc[self] = "w_comp"
+                /\ IF mapped /\ ~mapped2
+                      THEN /\ pres' = [pres EXCEPT ![self] = exp > wn[self]]
+                           /\ IF ~(WKind = "setifabsent" /\ pres'[self])
+                                 THEN /\ mapped' = FALSE
+                                      /\ mapped2' = TRUE
+                                      /\ wrote' = [wrote EXCEPT ![self] = TRUE]
+                                      /\ atomicCause' = IF pres'[self] THEN "Replacement" ELSE "Expiration"
+                                 ELSE /\ TRUE
+                                      /\ UNCHANGED << mapped, mapped2, 
+                                                      atomicCause, wrote >>
+                      ELSE /\ TRUE
+                           /\ UNCHANGED << mapped, mapped2, atomicCause, pres, 
+                                           wrote >>
+                /\ pc' = [pc EXCEPT ![self] = "w_after"]
+                /\ UNCHANGED << clock, exp, dead, inWheel, inPolicy, events, 
+                                hits, lastSweep, shortened, inWheel2, 
+                                asyncCause, evPublished, evApplied, n, now, 
+                                cur, wn, pres2, k, T, path, c1, revived, 
+                                removed >>
+
+w_after(self) == /\ pc[self] = "w_after"
+                 /\ pres2' = [pres2 EXCEPT ![self] = IF ReRead THEN (exp > wn[self]) ELSE pres[self]]
+                 /\ IF wrote[self]
+                       THEN /\ IF WKind = "setifabsent"
+                                  THEN /\ IF ~pres2'[self]
+                                             THEN /\ evPublished' = TRUE
+                                                  /\ asyncCause' = "Expiration"
+                                             ELSE /\ TRUE
+                                                  /\ UNCHANGED << asyncCause, 
+                                                                  evPublished >>
+                                  ELSE /\ evPublished' = TRUE
+                                       /\ asyncCause' = IF pres2'[self] THEN "Replacement" ELSE "Expiration"
+                       ELSE /\ TRUE
+                            /\ UNCHANGED << asyncCause, evPublished >>
+                 /\ pc' = [pc EXCEPT ![self] = "Done"]
+                 /\ UNCHANGED << clock, exp, mapped, dead, inWheel, inPolicy, 
+                                 events, hits, lastSweep, shortened, mapped2, 
+                                 inWheel2, atomicCause, evApplied, n, now, cur, 
+                                 wn, pres, wrote, k, T, path, c1, revived, 
+                                 removed >>
+
+Writer(self) == w_now(self) \/ w_comp(self) \/ w_after(self)
 
 T0 == /\ pc[Ticker] = "T0"
       /\ IF clock < MaxClock
@@ -225,18 +359,37 @@ T0 == /\ pc[Ticker] = "T0"
             ELSE /\ pc' = [pc EXCEPT ![Ticker] = "Done"]
                  /\ clock' = clock
       /\ UNCHANGED << exp, mapped, dead, inWheel, inPolicy, events, hits, 
-                      lastSweep, shortened, n, now, cur, k, T, path, c1, 
-                      revived, removed >>
+                      lastSweep, shortened, mapped2, inWheel2, atomicCause, 
+                      asyncCause, evPublished, evApplied, n, now, cur, wn, 
+                      pres, pres2, wrote, k, T, path, c1, revived, removed >>
 
 Tick == T0
 
 S0 == /\ pc[Sweeper] = "S0"
       /\ IF k <= NSweeps
-            THEN /\ pc' = [pc EXCEPT ![Sweeper] = "s_now"]
+            THEN /\ pc' = [pc EXCEPT ![Sweeper] = "s_drain"]
             ELSE /\ pc' = [pc EXCEPT ![Sweeper] = "Done"]
       /\ UNCHANGED << clock, exp, mapped, dead, inWheel, inPolicy, events, 
-                      hits, lastSweep, shortened, n, now, cur, k, T, path, c1, 
-                      revived, removed >>
+                      hits, lastSweep, shortened, mapped2, inWheel2, 
+                      atomicCause, asyncCause, evPublished, evApplied, n, now, 
+                      cur, wn, pres, pres2, wrote, k, T, path, c1, revived, 
+                      removed >>
+
+s_drain == /\ pc[Sweeper] = "s_drain"
+           /\ IF evPublished /\ ~evApplied
+                 THEN /\ inWheel' = FALSE
+                      /\ inPolicy' = FALSE
+                      /\ dead' = TRUE
+                      /\ inWheel2' = TRUE
+                      /\ evApplied' = TRUE
+                 ELSE /\ TRUE
+                      /\ UNCHANGED << dead, inWheel, inPolicy, inWheel2, 
+                                      evApplied >>
+           /\ pc' = [pc EXCEPT ![Sweeper] = "s_now"]
+           /\ UNCHANGED << clock, exp, mapped, events, hits, lastSweep, 
+                           shortened, mapped2, atomicCause, asyncCause, 
+                           evPublished, n, now, cur, wn, pres, pres2, wrote, k, 
+                           T, path, c1, revived, removed >>
 
 s_now == /\ pc[Sweeper] = "s_now"
          /\ T' = clock
@@ -245,7 +398,9 @@ s_now == /\ pc[Sweeper] = "s_now"
          /\ removed' = FALSE
          /\ pc' = [pc EXCEPT ![Sweeper] = "s_wheel"]
          /\ UNCHANGED << clock, exp, mapped, dead, inWheel, inPolicy, events, 
-                         hits, lastSweep, shortened, n, now, cur, k, c1 >>
+                         hits, lastSweep, shortened, mapped2, inWheel2, 
+                         atomicCause, asyncCause, evPublished, evApplied, n, 
+                         now, cur, wn, pres, pres2, wrote, k, c1 >>
 
 s_wheel == /\ pc[Sweeper] = "s_wheel"
            /\ lastSweep' = T
@@ -263,7 +418,9 @@ s_wheel == /\ pc[Sweeper] = "s_wheel"
                  THEN /\ pc' = [pc EXCEPT ![Sweeper] = "s_end"]
                  ELSE /\ pc' = [pc EXCEPT ![Sweeper] = "s_ev"]
            /\ UNCHANGED << clock, exp, mapped, dead, inPolicy, events, hits, 
-                           shortened, n, now, cur, k, T, c1, revived, removed >>
+                           shortened, mapped2, inWheel2, atomicCause, 
+                           asyncCause, evPublished, evApplied, n, now, cur, wn, 
+                           pres, pres2, wrote, k, T, c1, revived, removed >>
 
 s_ev == /\ pc[Sweeper] = "s_ev"
         /\ IF path = "size"
@@ -273,8 +430,10 @@ s_ev == /\ pc[Sweeper] = "s_ev"
                          ELSE /\ c1' = (IF exp <= T THEN "Expiration" ELSE "Overflow")
         /\ pc' = [pc EXCEPT ![Sweeper] = "s_lock"]
         /\ UNCHANGED << clock, exp, mapped, dead, inWheel, inPolicy, events, 
-                        hits, lastSweep, shortened, n, now, cur, k, T, path, 
-                        revived, removed >>
+                        hits, lastSweep, shortened, mapped2, inWheel2, 
+                        atomicCause, asyncCause, evPublished, evApplied, n, 
+                        now, cur, wn, pres, pres2, wrote, k, T, path, revived, 
+                        removed >>
 
 s_lock == /\ pc[Sweeper] = "s_lock"
           /\ IF mapped
@@ -289,7 +448,9 @@ s_lock == /\ pc[Sweeper] = "s_lock"
                      /\ UNCHANGED << mapped, events, revived, removed >>
           /\ pc' = [pc EXCEPT ![Sweeper] = "s_pol"]
           /\ UNCHANGED << clock, exp, dead, inWheel, inPolicy, hits, lastSweep, 
-                          shortened, n, now, cur, k, T, path, c1 >>
+                          shortened, mapped2, inWheel2, atomicCause, 
+                          asyncCause, evPublished, evApplied, n, now, cur, wn, 
+                          pres, pres2, wrote, k, T, path, c1 >>
 
 s_pol == /\ pc[Sweeper] = "s_pol"
          /\ IF revived
@@ -300,30 +461,56 @@ s_pol == /\ pc[Sweeper] = "s_pol"
                     /\ dead' = TRUE
          /\ pc' = [pc EXCEPT ![Sweeper] = "s_end"]
          /\ UNCHANGED << clock, exp, mapped, events, hits, lastSweep, 
-                         shortened, n, now, cur, k, T, path, c1, revived, 
-                         removed >>
+                         shortened, mapped2, inWheel2, atomicCause, asyncCause, 
+                         evPublished, evApplied, n, now, cur, wn, pres, pres2, 
+                         wrote, k, T, path, c1, revived, removed >>
 
 s_end == /\ pc[Sweeper] = "s_end"
          /\ k' = k + 1
          /\ pc' = [pc EXCEPT ![Sweeper] = "S0"]
          /\ UNCHANGED << clock, exp, mapped, dead, inWheel, inPolicy, events, 
-                         hits, lastSweep, shortened, n, now, cur, T, path, c1, 
+                         hits, lastSweep, shortened, mapped2, inWheel2, 
+                         atomicCause, asyncCause, evPublished, evApplied, n, 
+                         now, cur, wn, pres, pres2, wrote, T, path, c1, 
                          revived, removed >>
 
-Sweep == S0 \/ s_now \/ s_wheel \/ s_ev \/ s_lock \/ s_pol \/ s_end
+Sweep == S0 \/ s_drain \/ s_now \/ s_wheel \/ s_ev \/ s_lock \/ s_pol
+            \/ s_end
+
+f_wait == /\ pc[-2] = "f_wait"
+          /\ \A p \in (Readers \cup Writers \cup {Sweeper, Ticker}) : pc[p] = "Done"
+          /\ IF evPublished /\ ~evApplied
+                THEN /\ inWheel' = FALSE
+                     /\ inPolicy' = FALSE
+                     /\ dead' = TRUE
+                     /\ inWheel2' = TRUE
+                     /\ evApplied' = TRUE
+                ELSE /\ TRUE
+                     /\ UNCHANGED << dead, inWheel, inPolicy, inWheel2, 
+                                     evApplied >>
+          /\ pc' = [pc EXCEPT ![-2] = "Done"]
+          /\ UNCHANGED << clock, exp, mapped, events, hits, lastSweep, 
+                          shortened, mapped2, atomicCause, asyncCause, 
+                          evPublished, n, now, cur, wn, pres, pres2, wrote, k, 
+                          T, path, c1, revived, removed >>
+
+Final == f_wait
 
 (* Allow infinite stuttering to prevent deadlock on termination. *)
 Terminating == /\ \A self \in ProcSet: pc[self] = "Done"
                /\ UNCHANGED vars
 
-Next == Tick \/ Sweep
+Next == Tick \/ Sweep \/ Final
            \/ (\E self \in Readers: Reader(self))
+           \/ (\E self \in Writers: Writer(self))
            \/ Terminating
 
 Spec == /\ Init /\ [][Next]_vars
         /\ \A self \in Readers : WF_vars(Reader(self))
+        /\ \A self \in Writers : WF_vars(Writer(self))
         /\ WF_vars(Tick)
         /\ WF_vars(Sweep)
+        /\ WF_vars(Final)
 
 Termination == <>(\A self \in ProcSet: pc[self] = "Done")
 
@@ -339,6 +526,9 @@ Once == Len(events) <= 1
 Tracked == Done => /\ mapped <=> inWheel
                    /\ Sized => (mapped <=> inPolicy)
                    /\ mapped <=> ~dead
+                   /\ mapped2 <=> inWheel2           \* the node a writer stored is known to the wheel (F20)
+\* both handlers are told the same cause for the replaced value (F22)
+SameCause == asyncCause # "none" => asyncCause = atomicCause
 ExtendOnly == [][exp' >= exp]_exp
 \* the last maintenance run found the deadline passed by more than the wheel's strict test allows: the entry is gone
 Swept == Done /\ mapped /\ ~shortened => ~(exp < lastSweep)
